@@ -42,7 +42,7 @@ def end_to_end(seed):
                 print('end-to-end %s: exit %d\n%s' % (prop, p.returncode, p.stderr[-800:]))
                 bad += 1
             else:
-                outs.append(_evidence_core(os.path.join(out, 'evidence', prop + '.json')))
+                outs.append(_evidence_core(os.path.join(out, 'evidence', prop + '.dev.json')))   # --runs writes the .dev file
             shutil.rmtree(out, ignore_errors=True)
         ok = len(outs) == 2 and outs[0] == outs[1]
         print('end-to-end %s seed %d, 16 vs 5 workers: %s' % (prop, seed, 'identical evidence' if ok else 'MISMATCH'))
